@@ -17,7 +17,7 @@ fi
 cd ${VERIF_DIR:-/verif}
 [ -x bin/verif ] || (export GOFLAGS=-mod=mod GOPROXY=off GOSUMDB=off GOTOOLCHAIN=local; go build -o bin/verif ./cmd/verif) || exit 3
 for c in "$@"; do
-  out=$(VERIF_REPO=$wt timeout 1800 bin/verif check "$c" --tier ${TIER:-quick} 2>&1); e=$?
+  out=$(VERIF_REPO=$wt timeout 1800 bin/verif check "$c" --tier ${TIER:-quick} ${ONLY:+--only "$ONLY"} 2>&1); e=$?
   echo "$out" | grep -E "^(violation|INFRA|verif:)" | cut -c1-400 | head -${LINES_MAX:-8}
   echo "$out" | grep -E "^(VIOLATION|KNOWN|C[0-9]+ )" | cut -c1-400
   echo "exit=$e"
